@@ -19,6 +19,9 @@ RULE = ("27 element types (==-comparable and not: basics incl. +0/-0 floats, nam
         "backing array of an input / fresh) next to the input as observed after the call")
 
 KNOWN_TEXT = {
+    "C14/unique-noncomparable-own-equal-no-hash": "F115 deriveUnique on an element type that is not ==-comparable and holds an own Equal without an "
+                                                  "own Hash buckets by the structural hash: two elements that derived Equal holds equal are kept "
+                                                  "(nothing is lost or invented)",
     "C14/unique-own-equal-no-hash": "deriveUnique on a ==-comparable element type with its own Equal but no own Hash buckets by the structural "
                                     "hash: mutually Equal elements are kept",
     "C14/unique-named-basic-own-hash-ignored": "deriveUnique on a named basic type with its own Equal and Hash() int32: the hash function "
@@ -34,6 +37,9 @@ def classify(op, impl, model, spec):
             return "C14/unique-own-equal-no-hash"
         if f[3].startswith("LBH"):
             return "C14/unique-named-basic-own-hash-ignored"
+    if f[3].startswith("LNC") and ((f[2] == "uniqueeq" and impl.strip() == "false;kept-equal") or (f[2] == "unique" and impl == model)):
+        # element type not ==-comparable, holding an own Equal without an own Hash; nothing lost or invented
+        return "C14/unique-noncomparable-own-equal-no-hash"
     return None
 
 
